@@ -27,8 +27,8 @@ CLAIMS = {
   note="Not decided: that every recorded file is attempted (coverage), idempotence as a theorem, and that BuildDirs' created map equals what a from-scratch build would create (needs C01's composition; BuildDirs reservation machine is a trusted contract with a bounded stand-in).",
   ref="DESIGN.md 5 C12"),
  'C02': dict(
-  text="Deductive proof over _build, _roll_back and the backup call sites, on all paths: every Exception leaving the try block of _build (directory set-up, root function, bookkeeping, cache write) closes the builder, runs _roll_back (backups consumed) and re-raises; _roll_back cannot raise (no exceptional path) and only removes files built by this build and directories made by this build, recreates only directories recorded by the previous build; every move-aside is of the cache file, an old output or the call's own target (backed up before destroyed); the cache file is rewritten only after the root function returned and the old one was moved aside.",
-  note="Not decided: the exact post-rollback tree (R4: defects D4 'rebuilt output whose old copy was deleted externally survives rollback' and D5 'truncated cache file after a failed first write' described in DESIGN.md section 6 are NOT expressed by an obligation yet); FileBackups.restore_all/back_up_and_remove are trusted contracts with a bounded stand-in; BaseException other than Exception is outside the statement.",
+  text="Deductive proof over _build, _roll_back and the backup call sites, on all paths: every Exception leaving the try block of _build (directory set-up, root function, bookkeeping, cache write) closes the builder, runs _roll_back (backups consumed) and re-raises; _roll_back cannot raise (no exceptional path) and only removes files built by this build and directories made by this build, recreates only directories recorded by the previous build; every move-aside is of the cache file, an old output or the call's own target (backed up before destroyed); the cache file is rewritten only after the root function returned and the old one was moved aside; post-rollback tree (R4) as necessary conditions: the cache records which files this build built (Cache._built_files: start_building_file adds, __init__ starts empty), the rollback loop invariant 'every registered file that is not a reused result of the previous build is no regular file any more or had its removal attempted', restore_all is called only while no backed-up position was turned into a directory by the rollback, and _roll_back is called only when a cache file opened by this build is gone / had its removal attempted / will be overwritten by the backed-up previous one (three defects found by these obligations were repaired: 074b760, 7d6a9dc, ba05d4b).",
+  note="Not decided: the post-rollback tree as one equality theorem (what restore_all puts back is a trusted contract); BaseException other than Exception is outside the statement.",
   ref="DESIGN.md 5 C02"),
  'C06': dict(
   text="Deductive proof that a function is skipped only if its version is unchanged, for all record trees: the ghost predicate versions_ok (own version JSON-equal and versions_ok of every complex suboperation, least fixpoint) is implied by a True result of _is_build_file_operation_cached / _is_subbuild_operation_cached, by every hit of _build_file_cache_lookup / _subbuild_cache_lookup, by the loop invariant of _are_suboperations_cached, and by the reuse branches of _subbuild and _try_to_reuse_cached_file; get_func_version returns None for absent names; version comparison is JsonUtil.is_equal whose contract is the spec jeq (C18 lemmas: 1 == 1.0, True != 1, key order irrelevant).",
@@ -60,7 +60,7 @@ CLAIMS = {
   ref="DESIGN.md 5 C13"),
  'C16': dict(
   text="Proof + bounded: Cache.read_immutable is verified to have no effect on any path and to build a Cache whose maps are what _operations_from_json registered; Cache.write is verified to perform exactly one effect (opening the file it was given for writing) and _build proves it is called only after the root function returned, after the created directories were recorded and with the previous cache file moved aside, and that the text handed to the text-mode stream is ASCII (stated precondition of the assumed file.write model: json.dumps with ensure_ascii on); the record serialisation round trip (write o read_immutable over record forests, versions incl. falsy values, unicode names, big ints) is a bounded stand-in (cache_forest), not a proof.",
-  note="_operation_to_json/_operations_from_json/json/gzip are the trusted file layer; 'if writing fails and there was no cache file, none is left' is NOT established (design defect D5, no obligation yet).",
+  note="_operation_to_json/_operations_from_json/json/gzip are the trusted file layer; 'if writing fails and there was no cache file, none is left' is the guard _build/guard._roll_back.cache-file-written-by-this-build-is-not-left-behind (defect D5 found by it, repaired in ba05d4b).",
   ref="DESIGN.md 5 C16"),
  'C07': dict(
   text="Deductive proof: subbuild_key is the hashable form of [name, args, kwargs] (verified against spec hsh); lemma subbuild_key_identity (from the key lemma of C18): two such keys select the same dict slot iff same name and JSON-equal args and kwargs; Cache addresses subbuilds only through that slot (start/finish/has/get verified); _build_file_cache_lookup hits only the record stored under the same sanitized path with the same function name and JSON-equal arguments; arguments are sanitized (JSON round trip rt) before they are stored and the function receives fresh copies of the stored values; _sanitize_filename is abspath(fsdecode(x)).",
